@@ -660,7 +660,15 @@ def _all_case(ctx, k, malformed=False):
         ctx.dist[f"all_worst_{k_}_1e-16"] = max(ctx.dist.get(f"all_worst_{k_}_1e-16", 0), int(v * 1e16))
 
 
+# --- default values as regenerated obligations (Generated/Defaults.lean <- harness/translate_defaults.py; stream defaults[...])
+import defaults_stream  # noqa: E402
+from common import all_pre_build as pre_build  # noqa: E402,F401,F811  (runs EVERY translate_*.py)
+LEAN_MODULES += ["PyomaVerif.Props.WiringDefaults"]
+THEOREMS += ["PV.WiringDefaults.C07_defaults"]
+
+
 def correspondence(ctx):
+    defaults_stream.correspondence(ctx, props=('C07',))
     for _ in range(ctx.n(30, 300)):
         _bell_case(ctx)
     for _ in range(ctx.n(16, 160)):
